@@ -439,6 +439,12 @@ func c05Check(c *hx.Ctx, k int, cert *x509.Certificate, ty c05Type, content []by
 			return
 		}
 	}
+	// what the parser returned is the caller's: it is overwritten here (object identifiers, digests,
+	// content). The next signature (the next case) is made and judged after that; the harness also
+	// compares the library's package-level variables before and after the unit.
+	if lp2, e2 := pkcs7.ParsePKCS7(append([]byte{}, blob...)); e2 == nil {
+		scribbleResult(lp2)
+	}
 	c.Outcome("all-verifiers-agree")
 	c.Nontrivial(blob[:64], []byte(label))
 }
